@@ -197,6 +197,8 @@ def judge(ops, impl, model):
     for i, o in enumerate(ops):
         if o == "reset":
             skip, sets_only, last_d, last_x = False, False, None, None
+        elif o.startswith("T ") and model[i] == "T printed-form-mismatch":
+            out.append((i, "the model's RFC3339Nano / predicate printer (Model/TimeFmt.lean) and Go's disagree", "tie"))
         elif o.startswith("X "):
             last_x = i
             a, m = impl[i], model[i]
